@@ -129,7 +129,9 @@ func (e *SpecEnv) readsArgs(sf *SpecFn, n *SpecEnv) (sorts, terms []string) {
 // arguments; the arguments pre-exist, every pre-existing cell holds what it held at entry, and a cell of the entry heap only
 // points to pre-existing objects (heap closure), so by induction everything F reaches pre-exists and is unchanged: objects
 // allocated since entry cannot influence it. Not emitted under a quantifier (the arguments are not ground there).
-func (e *SpecEnv) readsFrame(name, retSort string, heapSorts, cur []string, entTerms func(ent *SpecEnv) []string, argSorts []string, args []SV) {
+// flat (optional): the argument terms as they are passed to the function symbol when they differ from args (slice parameters of
+// an `uninterp` are flattened to (block content, offset, length), ext_c34.go); the pointer premises still come from args.
+func (e *SpecEnv) readsFrame(name, retSort string, heapSorts, cur []string, entTerms func(ent *SpecEnv) []string, argSorts []string, args []SV, flat ...[]string) {
 	fc := e.fc
 	if e.inQuant > 0 || !fc.usesFact("readsframe") {
 		return
@@ -149,7 +151,7 @@ func (e *SpecEnv) readsFrame(name, retSort string, heapSorts, cur []string, entT
 		}
 		same = false
 		if strings.HasPrefix(heapSorts[i], "(Array Ptr ") {
-			prem = append(prem, fmt.Sprintf("(forall ((p Ptr)) (! (=> (< (root p) %s) (= (select %s p) (select %s p))) :pattern ((select %s p))))", w0, cur[i], ent[i], cur[i]))
+			prem = append(prem, fmt.Sprintf("(forall ((p Ptr)) (! (=> (and (< (root p) %s) (>= (root p) 0)) (= (select %s p) (select %s p))) :pattern ((select %s p))))", w0, cur[i], ent[i], cur[i])) // roots are allocation ids >= 0: same range as the frame condition (frame.go), so that `uses blockframe` discharges this premise
 		} else {
 			prem = append(prem, eq(cur[i], ent[i]))
 		}
@@ -168,6 +170,9 @@ func (e *SpecEnv) readsFrame(name, retSort string, heapSorts, cur []string, entT
 		case "Iface":
 			prem = append(prem, app("<", app("root", app("iptr", a.t)), w0))
 		}
+	}
+	if len(flat) == 1 && len(flat[0]) == len(argSorts) {
+		ats = flat[0]
 	}
 	fc.eng.declareUF(fc, name, append(append([]string{}, heapSorts...), argSorts...), retSort)
 	fc.assume("true", implies(and(prem...), eq(app(name, append(append([]string{}, cur...), ats...)...), app(name, append(append([]string{}, ent...), ats...)...))))
